@@ -6,9 +6,18 @@ EXTENDS Callable, SequencesExt, Json, IOUtils
 Pairs(f) == SetToSeq({<<n, f[n]>> : n \in DOMAIN f})
 SigSeq == SetToSeq(WFSigs)
 CallSeq == SetToSeq(Calls)
-Row(s) == [k \in 1..Len(CallSeq) |->
-             LET b == BindShape(s, CallSeq[k], 300, 400)
-             IN [err |-> b.err, vals |-> Pairs(b.vals), va |-> b.va, kwx |-> Pairs(b.kwx)]]
+\* one table cell: the direct-call outcome, and what a partial construction (cls.partial(..)) must give
+Cell(s, c, kbase) ==
+  LET b == BindShape(s, c, 300, kbase)
+      pe == ConstructOutcome(s, c)
+      pb == BoundOf(s, PosVals(c, 300), KwVals(c, kbase))
+  IN [err |-> b.err, vals |-> Pairs(b.vals), va |-> b.va, kwx |-> Pairs(b.kwx),
+      perr |-> pe,
+      prep |-> IF pe = "ok" THEN Pairs(Reported(s, Restrict(pb, Named(s)))) ELSE <<>>,
+      pkwx |-> IF pe = "ok" THEN Pairs(Restrict(pb, (DOMAIN pb) \ Named(s))) ELSE <<>>,
+      pva |-> IF pe = "ok" THEN VargsOf(s, PosVals(c, 300)) ELSE <<>>]
+\* value mode "distinct" (keyword n carries 400+n) and "equal" (300+n, what the positional route would carry)
+Row(s) == [k \in 1..Len(CallSeq) |-> [dist |-> Cell(s, CallSeq[k], 400), eqv |-> Cell(s, CallSeq[k], 300)]]
 ASSUME JsonSerialize(IOEnv.OUT_FILE,
          [sigs |-> SigSeq,
           calls |-> [k \in 1..Len(CallSeq) |-> [nargs |-> CallSeq[k].nargs, kw |-> SetToSeq(CallSeq[k].kw)]],
